@@ -21,6 +21,7 @@ DFLT_ESC = b'\x1b[0m\x1b[37m'
 FMT_DEFAULT = '%Y%m%dT%H%M%S%.3f%z'
 FMT_US = '%Y-%m-%d %H:%M:%S%.6f %:z'
 FMT_EPOCH = '%s'
+FMT_NS = '%Y%m%dT%H%M%S%.9f'
 
 
 # ------------------------------------------------------------------ independent datetime field
@@ -58,7 +59,7 @@ def fmt_dt(ns, off_s, fmt):
             out.append(c)
             i += 1
             continue
-        for spec, val in (('%.3f', '.%03d' % (frac // 1_000_000)), ('%.6f', '.%06d' % (frac // 1000)),
+        for spec, val in (('%.3f', '.%03d' % (frac // 1_000_000)), ('%.6f', '.%06d' % (frac // 1000)), ('%.9f', '.%09d' % frac),
                           ('%:z', '%s%02d:%02d' % (sign, oh, om)), ('%Y', '%04d' % y), ('%m', '%02d' % mo),
                           ('%d', '%02d' % d), ('%H', '%02d' % hh), ('%M', '%02d' % mi), ('%S', '%02d' % ss),
                           ('%z', '%s%02d%02d' % (sign, oh, om)), ('%s', '%d' % sec), ('%%', '%')):
@@ -121,8 +122,10 @@ class Scenario:
 NAMES = ['a.log', 'bb.log', 'quite-long-name.log', 'x', '日本語.log', 'café.log', 'm.log']
 
 
-def text_scenario(rng, work, k, nfiles=None, names=None, nonascii=True, window=False, steps=(0, 1, 1, 2, 7, 3600), silent=()):
-    """`silent`: (position, name, how) of extra sources that print nothing — how = 'nolog' (no timestamp in the file) or
+def text_scenario(rng, work, k, nfiles=None, names=None, nonascii=True, window=False, steps=(0, 1, 1, 2, 7, 3600), silent=(), fracs=None, nmsgs=(2, 7)):
+    """`fracs`: sub-second parts (ns) the timestamps carry (9 digits); consecutive messages then share a second / a millisecond
+    but not the instant, so a datetime field finer than the default must differ between them (merge keys are then ns).
+    `silent`: (position, name, how) of extra sources that print nothing — how = 'nolog' (no timestamp in the file) or
     'old' (every message before the window, which is then forced to start after them)"""
     d = os.path.join(work, 'sc%d' % k)
     shutil.rmtree(d, ignore_errors=True)
@@ -133,8 +136,8 @@ def text_scenario(rng, work, k, nfiles=None, names=None, nonascii=True, window=F
     files, srcs = [], []
     base = 1672531200 + rng.below(100000)
     for i, nm in enumerate(names):
-        log = e2e.gen_log(rng, rng.range(2, 7), start=base + rng.below(5) + (40000 if min(steps) < 0 else 0), steps=steps,
-                          final_newline=not rng.chance(1, 3), weird=rng.chance(1, 2), body_min=6, cont_prob=(1, 2))
+        log = e2e.gen_log(rng, rng.range(*nmsgs), start=base + rng.below(5) + (40000 if min(steps) < 0 else 0), steps=steps,
+                          final_newline=not rng.chance(1, 3), weird=rng.chance(1, 2), body_min=6, cont_prob=(1, 2), frac_choices=fracs)
         rel = os.path.join('sub', nm) if rng.chance(1, 2) else nm
         open(os.path.join(d, rel), 'wb').write(log.data)
         files.append({'path': os.path.join(d, rel), 'arg': rel, 'kind': 's', 'base': nm})
@@ -142,8 +145,9 @@ def text_scenario(rng, work, k, nfiles=None, names=None, nonascii=True, window=F
         for j, (off, ln, t) in enumerate(log.msgs):
             b = log.data[off:off + ln]
             lines = b.splitlines(keepends=True) if b'\r' not in b else re.findall(rb'[^\n]*\n|[^\n]+$', b)
-            ms.append((t, {'pid': i, 'kind': 's', 'lines': lines, 'ns': t * 1_000_000_000,
-                           'last': j == len(log.msgs) - 1, 'beg': 0, 'fin': 19}))
+            ns = t * 1_000_000_000 + (log.ns[j] if fracs else 0)
+            ms.append((ns if fracs else t, {'pid': i, 'kind': 's', 'lines': lines, 'ns': ns,
+                                            'last': j == len(log.msgs) - 1, 'beg': 0, 'fin': 29 if fracs else 19}))
         srcs.append(ms)
     forced_after = None
     for pos, nm, how in silent:
@@ -357,7 +361,7 @@ def journal_scenario(rng, work, k, mode='short', big=False):
 # ------------------------------------------------------------------ option matrix
 
 ZONES = [(None, 0), ('-u', 0), ('-l', 0), (('-z', '+05:30'), 19800), (('-z', '-03:00'), -10800), (('-z', '+01:00'), 3600)]
-FMTS = [None, FMT_DEFAULT, FMT_EPOCH, FMT_US]
+FMTS = [None, FMT_DEFAULT, FMT_EPOCH, FMT_US, FMT_NS]
 PSEPS = [None, ' | ', '', '=']
 SEPS = [None, r'\n', r'\0', 'XX', r'--\n\t\\']
 SEP_BYTES = {None: b'', r'\n': b'\n', r'\0': b'\0', 'XX': b'XX', r'--\n\t\\': b'--\n\t\\'}
